@@ -21,6 +21,7 @@ import (
 	"math/rand/v2"
 	"runtime/debug"
 	"sort"
+	"strings"
 	"time"
 
 	"github.com/oasisprotocol/oasis-core/go/common/crypto/hash"
@@ -68,6 +69,54 @@ type concWitness struct {
 	Second   string   `json:"second_user_operation"`
 	Detail   string   `json:"detail"`
 	Observed string   `json:"observed"`
+}
+
+// runConcurrentUseChild runs the family in a child process: a tree that is damaged by two users can
+// end the process with a fatal error of the Go runtime (concurrent map access), which no recover()
+// sees. The child is this binary restricted to the family; its violations are reported again here.
+func runConcurrentUseChild() {
+	res := evid.Child([]string{"-tier", run.Tier, "-seed", fmt.Sprint(run.Seed)}, []string{"VERIF_C02_FAMILY=concurrent", "VERIF_NO_EVIDENCE=1"}, 30*time.Minute)
+	out := string(res.Out)
+	tail := out
+	if len(tail) > 6000 {
+		tail = tail[len(tail)-6000:]
+	}
+	n := 0
+	for _, l := range strings.Split(out, "\n") {
+		if rest, ok := strings.CutPrefix(l, "  signature="); ok {
+			sig, what, _ := strings.Cut(rest, " ")
+			run.Violation(sig, what, map[string]any{"reported_by": "child process running the concurrent-use family", "seed": run.Seed, "tier": run.Tier})
+			n++
+		}
+		if strings.HasPrefix(l, "SUMMARY") {
+			var ev, nt int
+			for _, f := range strings.Fields(l) {
+				fmt.Sscanf(f, "evaluations=%d", &ev)
+				fmt.Sscanf(f, "distinct_nontrivial=%d", &nt)
+			}
+			run.Eval(ev)
+			run.Count("concurrent_use.cases", int64(ev))
+			run.Count("concurrent_use.distinct_kinds_completed", int64(nt))
+		}
+	}
+	switch {
+	case res.TimedOut:
+		run.Inconclusive("concurrent-use family: child process watchdog fired")
+	case res.ExitCode == 0 || (res.ExitCode == 1 && n > 0):
+	case res.ExitCode == 2 && strings.Contains(out, "INCONCLUSIVE"):
+		run.Inconclusive("concurrent-use family: child inconclusive: %s", tail)
+	case res.Signal == 9 && !strings.Contains(out, "fatal error") && !strings.Contains(out, "goroutine "):
+		run.Inconclusive("concurrent-use family: child killed from outside")
+	default:
+		what := "fatal error"
+		if i := strings.Index(out, "fatal error:"); i >= 0 {
+			what, _, _ = strings.Cut(out[i:], "\n")
+		} else if i := strings.Index(out, "panic:"); i >= 0 {
+			what, _, _ = strings.Cut(out[i:], "\n")
+		}
+		run.Violation("c02/concurrent-use/process-died", "a tree used by two goroutines around a commit ended the process: "+what,
+			map[string]any{"seed": run.Seed, "tier": run.Tier, "exit": res.ExitCode, "signal": int(res.Signal), "output_tail": tail})
+	}
 }
 
 func runConcurrentUse() {
